@@ -1,4 +1,185 @@
-import CM.Model.Rel
+/-
+  C17 — GroupBy re-keys a dataset as an exact partition.
+  Property theorems about CM.Model.Rel (tied to /repo by the S-REL correspondence).  Split is covered by the
+  correspondence only (see DESIGN.md).
+-/
+import CM.Proofs.RelLemmas
 namespace CM.C17
-theorem placeholder : True := trivial
+open CM
+
+/-- **Exact partition.**  When the mapping of GroupBy is built without error, every group `(k, g)` holds exactly
+the old ids whose key is `k`; group keys are pairwise different; no group is empty. -/
+theorem group_partition (keyOf : String → Except Err String) :
+    ∀ (ids : List String) (m : List (String × List String)), groupMapping keyOf ids = .ok m →
+      (∀ k g, (k, g) ∈ m → ∀ i, i ∈ g ↔ (i ∈ ids ∧ keyOf i = .ok k)) ∧
+      (m.map (·.1)).Nodup ∧
+      (∀ k g, (k, g) ∈ m → g ≠ []) ∧
+      (∀ i ∈ ids, ∃ k g, keyOf i = .ok k ∧ (k, g) ∈ m)
+  | [], m, h => by
+    simp only [groupMapping] at h
+    injection h with h; subst h
+    simp
+  | i :: rest, m, h => by
+    simp only [groupMapping, bind, Except.bind] at h
+    cases hr : groupMapping keyOf rest with
+    | error e => simp [hr] at h
+    | ok m' =>
+      cases hk : keyOf i with
+      | error e => simp [hr, hk] at h
+      | ok k =>
+        simp only [hr, hk, pure, Except.pure] at h
+        injection h with h
+        obtain ⟨ih1, ih2, ih3, ih4⟩ := group_partition keyOf rest m' hr
+        by_cases hany : (m'.any fun p => p.1 == k) = true
+        · -- the key exists: `i` is inserted into its group
+          simp only [hany, if_true] at h
+          subst h
+          refine ⟨?_, ?_, ?_, ?_⟩
+          · intro k' g' hm j
+            simp only [List.mem_map] at hm
+            obtain ⟨⟨k'', g''⟩, hm', heq⟩ := hm
+            by_cases hkk : (k'' == k) = true
+            · simp only [hkk, if_true] at heq
+              injection heq with h1 h2; subst h1; subst h2
+              have hk'' : k'' = k := by simpa using hkk
+              rw [mem_insertSorted, ih1 k'' g'' hm' j]
+              constructor
+              · rintro (rfl | ⟨h1, h2⟩)
+                · exact ⟨List.mem_cons_self .., by rw [hk, hk'']⟩
+                · exact ⟨List.mem_cons_of_mem _ h1, h2⟩
+              · rintro ⟨h1, h2⟩
+                cases h1 with
+                | head => exact .inl rfl
+                | tail _ h1 => exact .inr ⟨h1, h2⟩
+            · simp only [hkk] at heq
+              injection heq with h1 h2; subst h1; subst h2
+              rw [ih1 k'' g'' hm' j]
+              constructor
+              · rintro ⟨h1, h2⟩; exact ⟨List.mem_cons_of_mem _ h1, h2⟩
+              · rintro ⟨h1, h2⟩
+                cases h1 with
+                | head =>
+                  rw [hk] at h2; injection h2 with h2
+                  exact absurd (by simp [h2]) hkk
+                | tail _ h1 => exact ⟨h1, h2⟩
+          · have : (m'.map fun p => if (p.1 == k) = true then (p.1, insertSorted i p.2) else (p.1, p.2)).map (·.1) = m'.map (·.1) := by
+              simp only [List.map_map]
+              apply List.map_congr_left
+              intro p _
+              simp only [Function.comp]
+              split <;> rfl
+            rw [this]; exact ih2
+          · intro k' g' hm
+            simp only [List.mem_map] at hm
+            obtain ⟨⟨k'', g''⟩, hm', heq⟩ := hm
+            by_cases hkk : (k'' == k) = true
+            · simp only [hkk, if_true] at heq
+              injection heq with _ h2; subst h2
+              intro hnil
+              have : i ∈ insertSorted i g'' := (mem_insertSorted i i g'').mpr (.inl rfl)
+              rw [hnil] at this; cases this
+            · simp only [hkk] at heq
+              injection heq with h1 h2; subst h1; subst h2
+              exact ih3 k'' g'' hm'
+          · intro j hj
+            have key : ∀ k0 g0, (k0, g0) ∈ m' → ∃ g1, (k0, g1) ∈ m'.map fun p => if (p.1 == k) = true then (p.1, insertSorted i p.2) else (p.1, p.2) := by
+              intro k0 g0 hm0
+              by_cases hkk : (k0 == k) = true
+              · exact ⟨insertSorted i g0, List.mem_map.mpr ⟨(k0, g0), hm0, by simp [hkk]⟩⟩
+              · exact ⟨g0, List.mem_map.mpr ⟨(k0, g0), hm0, by simp [hkk]⟩⟩
+            cases hj with
+            | head =>
+              simp only [List.any_eq_true] at hany
+              obtain ⟨⟨k0, g0⟩, hm0, hk0⟩ := hany
+              have : k0 = k := by simpa using hk0
+              subst this
+              obtain ⟨g1, hg1⟩ := key k0 g0 hm0
+              exact ⟨k0, g1, hk, hg1⟩
+            | tail _ hj =>
+              obtain ⟨k0, g0, hk0, hm0⟩ := ih4 j hj
+              obtain ⟨g1, hg1⟩ := key k0 g0 hm0
+              exact ⟨k0, g1, hk0, hg1⟩
+        · -- a new key: a new group holding only `i`
+          have hany' : (m'.any fun p => p.1 == k) = false := (Bool.not_eq_true _).mp hany
+          simp only [hany', Bool.false_eq_true, ↓reduceIte] at h
+          subst h
+          have hknew : ∀ g, (k, g) ∉ m' := by
+            intro g hm
+            apply hany
+            simp only [List.any_eq_true]
+            exact ⟨(k, g), hm, by simp⟩
+          refine ⟨?_, ?_, ?_, ?_⟩
+          · intro k' g' hm j
+            simp only [List.mem_append, List.mem_singleton] at hm
+            rcases hm with hm | hm
+            · rw [ih1 k' g' hm j]
+              constructor
+              · rintro ⟨h1, h2⟩; exact ⟨List.mem_cons_of_mem _ h1, h2⟩
+              · rintro ⟨h1, h2⟩
+                cases h1 with
+                | head =>
+                  rw [hk] at h2; injection h2 with h2; subst h2
+                  exact absurd hm (hknew g')
+                | tail _ h1 => exact ⟨h1, h2⟩
+            · injection hm with h1 h2; subst h1; subst h2
+              simp only [List.mem_singleton]
+              constructor
+              · rintro rfl; exact ⟨List.mem_cons_self .., hk⟩
+              · rintro ⟨h1, h2⟩
+                cases h1 with
+                | head => rfl
+                | tail _ h1 =>
+                  obtain ⟨k0, g0, hk0, hm0⟩ := ih4 j h1
+                  rw [h2] at hk0; injection hk0 with hk0; subst hk0
+                  exact absurd hm0 (hknew g0)
+          · simp only [List.map_append, List.map_cons, List.map_nil]
+            rw [List.nodup_append]
+            refine ⟨ih2, by simp, ?_⟩
+            intro a ha b hb
+            simp only [List.mem_singleton] at hb; subst hb
+            intro hab; subst hab
+            simp only [List.mem_map] at ha
+            obtain ⟨⟨k0, g0⟩, hm0, rfl⟩ := ha
+            exact hknew g0 hm0
+          · intro k' g' hm
+            simp only [List.mem_append, List.mem_singleton] at hm
+            rcases hm with hm | hm
+            · exact ih3 k' g' hm
+            · injection hm with _ h2; subst h2; simp
+          · intro j hj
+            cases hj with
+            | head => exact ⟨k, [i], hk, by simp⟩
+            | tail _ hj =>
+              obtain ⟨k0, g0, hk0, hm0⟩ := ih4 j hj
+              exact ⟨k0, g0, hk0, by simp [hm0]⟩
+
+/-- the new ids are the sorted group keys; a key that is not a group is rejected by every data field -/
+theorem group_unknown_rejected (keyOf : String → Except Err String) (d : DS) (g : DS) (h : groupByDS keyOf d = .ok g)
+    (ids : List String) (hids : d.ids = .ok ids) (m : List (String × List String))
+    (hm : groupMapping keyOf ids = .ok m) (new f : String) (hf : (f == "id") = false)
+    (hnew : ∀ grp, (new, grp) ∉ m) : g.value f new = .error .keyError := by
+  simp only [groupByDS] at h
+  split at h
+  · simp at h
+  · injection h with h
+    subst h
+    simp only [hf, hids, Except.bind, hm]
+    have : m.find? (fun p => p.1 == new) = none := by
+      rw [List.find?_eq_none]
+      intro p hp hk
+      have : p.1 = new := by simpa using hk
+      exact hnew p.2 (by rw [← this]; exact hp)
+    simp [this]
+
+/-- single-string keys are themselves; a non-string key is a `TypeError` -/
+theorem to_key_spec (s : String) (i : Int) :
+    toKey [.str s] = .ok s ∧ toKey [.int i] = .error .typeError ∧ toKey [.app "f" [] [] []] = .error .typeError := by
+  simp [toKey]
+
+/-- non-vacuity: four ids, two groups -/
+example :
+    (match groupMapping (fun i => .ok (if i == "a" || i == "c" then "u" else "v")) ["a", "b", "c", "d"] with
+      | .ok m => m.length == 2 && (m.find? (·.1 == "u")).map (·.2) == some ["a", "c"]
+      | .error _ => false) = true := by decide +kernel
+
 end CM.C17
